@@ -13,7 +13,7 @@ grid8 = st.integers(-80, 80).map(lambda k: k / 8.0)
 def repetition(draw, coord=grid8, allow_zero=False, counts=None, max_explicit=8, kinds=None):
     kinds = kinds or ["rect", "regular", "explicit", "explicitx", "explicity"]
     k = draw(st.sampled_from(kinds))
-    cnt = counts or st.sampled_from(([0] if allow_zero else []) + [1, 1, 2, 2, 3, 7])
+    cnt = counts if counts is not None else st.sampled_from(([0] if allow_zero else []) + [1, 1, 2, 2, 3, 7])
     if k == "rect":
         return {"type": "rect", "cols": draw(cnt), "rows": draw(cnt), "spacing": [draw(coord), draw(coord)]}
     if k == "regular":
